@@ -26,7 +26,7 @@ EXTS = {
     "mwlib.parser.refine._core": "mwlib/parser/refine/_core.pyx",
     "mwlib.parser.token._uscan": "mwlib/parser/token/_uscan.cc",
 }
-CFLAGS = ["-O1", "-fPIC", "-shared", "-w", "-fno-strict-aliasing"]
+CFLAGS = ["-O1", "-fPIC", "-shared", "-w", "-fno-strict-aliasing", "-DCYDIRECTIVES_DEFAULT"]
 
 
 class BuildError(Exception):
@@ -78,8 +78,10 @@ def _build_one(modname, relpath):
         if relpath.endswith(".pyx"):
             cfile = os.path.splitext(srcfile)[0] + ".c"
             subprocess.run(
-                [sys.executable, "-m", "cython", "-3", "-X", "boundscheck=False", "-X",
-                 "wraparound=False", "-o", cfile, srcfile],
+                # `make build` (run by setup.py before cythonize) generates the .c files with plain `cython -3`;
+                # cythonize then finds them up to date, so setup.py's boundscheck/wraparound=False directives are
+                # never applied in a real build (the tracked .c files confirm: wraparound=1, boundscheck=1).
+                [sys.executable, "-m", "cython", "-3", "-o", cfile, srcfile],
                 check=True, cwd=tmp, capture_output=True, text=True,
             )
             cc = ["gcc"]
